@@ -19,3 +19,5 @@ import PysersicModel.Prob.Prior
 import PysersicModel.Prob.Fitter
 import PysersicModel.Opt.MapDict
 import PysersicModel.Prob.MultiBand
+import PysersicModel.Render.CxOps
+import PysersicModel.Gen.Kernels
